@@ -8,6 +8,7 @@
  * fresh output and carry context c2 - otherwise the snapshot is replaced by !<operation>.
  */
 #include "hpoly.h"
+#include <variable_list.h>
 #include <polynomial_vector.h>
 #include <feasibility_set_int.h>
 
@@ -215,6 +216,40 @@ static void vdb_case(void) {
   lp_variable_db_detach(db);
 }
 
+/* variable list: histories of push / remove / pop / order / contains; the index answered for every variable must agree with
+ * a shadow of "pushed and neither removed nor popped", and every access stays inside the list (sanitizers)
+ *   refs vlist <op,op,...> => ok | <first disagreement> */
+static void vlist_case(void) {
+  lp_variable_order_t* ord = lp_variable_order_new();
+  for (lp_variable_t v = 0; v < 12; ++v) lp_variable_order_push(ord, v);
+  lp_variable_list_t L; lp_variable_list_construct(&L);
+  int in[12] = { 0 };               /* shadow: present */
+  long stack[64]; int sp = 0;        /* shadow of the slots (-1 = hole left by remove) */
+  char bad[128]; bad[0] = 0;
+  int nops = 4 + (int)rnd(24);
+  sb_begin("refs", "vlist"); sb_sp();
+  for (int k = 0; k < nops && !bad[0]; ++k) {
+    unsigned w = rnd(100); lp_variable_t v = rnd(12);
+    if (k) sb_str(",");
+    if (w < 45 && sp < 60) { if (in[v]) { sb_str("skip"); continue; } lp_variable_list_push(&L, v); in[v] = 1; stack[sp++] = (long)v; sb_str("push:"); sb_ulong(v); }
+    else if (w < 65) { lp_variable_list_remove(&L, v); if (in[v]) { in[v] = 0; for (int j = 0; j < sp; ++j) if (stack[j] == (long)v) stack[j] = -1; } sb_str("remove:"); sb_ulong(v); }
+    else if (w < 85) { if (!sp) { sb_str("skip"); continue; } lp_variable_list_pop(&L); --sp; if (stack[sp] >= 0) in[stack[sp]] = 0; sb_str("pop"); }
+    else { lp_variable_list_order(&L, ord); int t = 0; for (int j = 0; j < sp; ++j) if (stack[j] >= 0) stack[t++] = stack[j]; sp = t;
+      /* sorted by the order 0 < 1 < .. */
+      for (int i = 0; i < sp; ++i) for (int j = i + 1; j < sp; ++j) if (stack[j] < stack[i]) { long x = stack[i]; stack[i] = stack[j]; stack[j] = x; }
+      sb_str("order"); }
+    if (lp_variable_list_size(&L) != (size_t)sp) snprintf(bad, sizeof bad, "size-%zu-expected-%d-after-op-%d", lp_variable_list_size(&L), sp, k);
+    for (lp_variable_t x = 0; x < 12 && !bad[0]; ++x) {
+      int idx = lp_variable_list_index(&L, x);
+      if ((idx != -1) != (in[x] != 0)) snprintf(bad, sizeof bad, "index-of-%zu-is-%d-after-op-%d", (size_t)x, idx, k);
+      else if (idx != -1 && (idx >= sp || stack[idx] != (long)x)) snprintf(bad, sizeof bad, "index-of-%zu-points-to-the-wrong-slot-after-op-%d", (size_t)x, k);
+    }
+  }
+  sb_arrow(); sb_sp(); sb_str(bad[0] ? bad : "ok"); sb_emit();
+  lp_variable_list_destruct(&L);
+  lp_variable_order_detach(ord);
+}
+
 int main(int argc, char** argv) {
   uint64_t seed = argc > 1 ? strtoull(argv[1], 0, 10) : 1;
   long n = argc > 2 ? atol(argv[2]) : 1000;
@@ -224,7 +259,7 @@ int main(int argc, char** argv) {
   for (long i = 0; i < n; ++i) {
     if ((only >= 0 && i != only) || i < start) continue;
     lpv_begin_case(seed, i);
-    if (i % 8 == 7) vdb_case(); else mem_case();
+    if (i % 8 == 7) vdb_case(); else if (i % 8 == 3) vlist_case(); else mem_case();
   }
   free(sb_buf);
   return 0;
